@@ -46,7 +46,9 @@ func (fr *Frame) specEnv(st *State) *SpecEnv {
 		}
 	}
 	for n, o := range best {
-		env.names[n] = st.vars[o]
+		if gv, ok := fr.x.getVar(st, o); ok {
+			env.names[n] = gv
+		}
 	}
 	for k, v := range fr.specNames {
 		if _, shadow := env.names[k]; !shadow || true {
@@ -216,6 +218,10 @@ func (fr *Frame) dynamicCall(st *State, c *ast.CallExpr) []Val {
 		fr.argEval(st, a)
 	}
 	t := fr.typeOf(c.Fun)
+	if nt, ok := t.(*types.Named); ok && nt.Obj().Pkg() != nil && nt.Obj().Pkg().Path() == "context" && nt.Obj().Name() == "CancelFunc" {
+		x.used("context.CancelFunc: calling it has no effect on modelled state")
+		return nil
+	}
 	sig, _ := t.Underlying().(*types.Signature)
 	x.u.havocSites = append(x.u.havocSites, fmt.Sprintf("%s: dynamic call %s: heap havoc", fr.pos(c.Pos()), trunc(fr.src(c.Fun), 40)))
 	for _, k := range x.u.heapOrder {
@@ -323,6 +329,9 @@ func (fr *Frame) contractCall(st *State, c *ast.CallExpr, fn *types.Func, ct *Co
 	for _, r := range results {
 		x.emitTypeFact(st, r)
 	}
+	if ct.Counts != "" {
+		x.countInc(st, ct.Counts)
+	}
 	env.st = st
 	for _, e := range ct.Ensures {
 		t, err := fr.evalClause(env, e)
@@ -361,7 +370,7 @@ func (fr *Frame) inlineCall(st *State, c *ast.CallExpr, fn *types.Func, decl *as
 				v = fr.unsupported(st, c, "implicit address-of receiver", sig.Recv().Type())
 			}
 			if o, ok := dpkg.TypesInfo.Defs[decl.Recv.List[0].Names[0]].(*types.Var); ok {
-				st.vars[o] = Val{T: v.T, S: v.S, Ty: o.Type()}
+				x.declVar(st, o, v)
 			}
 		}
 	} else if decl.Recv != nil {
@@ -383,12 +392,12 @@ func (fr *Frame) inlineCall(st *State, c *ast.CallExpr, fn *types.Func, decl *as
 					if sig.Variadic() && pi == sig.Params().Len()-1 {
 						// variadic: pack remaining args
 						if c.Ellipsis.IsValid() {
-							st.vars[o] = Val{T: argv[pi].T, S: argv[pi].S, Ty: o.Type()}
+							x.declVar(st, o, argv[pi])
 						} else {
-							st.vars[o] = x.havocVal(o.Name(), o.Type())
+							x.declVar(st, o, x.havocVal(o.Name(), o.Type()))
 						}
 					} else {
-						st.vars[o] = Val{T: argv[pi].T, S: argv[pi].S, Ty: o.Type()}
+						x.declVar(st, o, argv[pi])
 					}
 				}
 				pi++
@@ -402,7 +411,7 @@ func (fr *Frame) inlineCall(st *State, c *ast.CallExpr, fn *types.Func, decl *as
 		for _, fld := range decl.Type.Results.List {
 			for _, nm := range fld.Names {
 				if o, ok := dpkg.TypesInfo.Defs[nm].(*types.Var); ok {
-					st.vars[o] = x.zeroVal(o.Type())
+					x.declVar(st, o, x.zeroVal(o.Type()))
 					sub.named = append(sub.named, o)
 				}
 			}
@@ -419,7 +428,10 @@ func (sub *Frame) runBody(st *State, body *ast.BlockStmt, at ast.Node) []Val {
 	if f.next != nil {
 		var vals []Val
 		for _, nv := range sub.named {
-			vals = append(vals, f.next.vars[nv])
+			{
+				gv, _ := x.getVar(f.next, nv)
+				vals = append(vals, gv)
+			}
 		}
 		rets = append(rets, retState{f.next, vals})
 	}
@@ -479,7 +491,7 @@ func (fr *Frame) inlineLit(st *State, c *ast.CallExpr, lit *ast.FuncLit, owner *
 		for _, fld := range lit.Type.Params.List {
 			for _, nm := range fld.Names {
 				if o, ok := owner.info.Defs[nm].(*types.Var); ok && pi < len(argv) {
-					st.vars[o] = Val{T: argv[pi].T, S: argv[pi].S, Ty: o.Type()}
+					x.declVar(st, o, argv[pi])
 				}
 				pi++
 			}
@@ -489,7 +501,7 @@ func (fr *Frame) inlineLit(st *State, c *ast.CallExpr, lit *ast.FuncLit, owner *
 		for _, fld := range lit.Type.Results.List {
 			for _, nm := range fld.Names {
 				if o, ok := owner.info.Defs[nm].(*types.Var); ok {
-					st.vars[o] = x.zeroVal(o.Type())
+					x.declVar(st, o, x.zeroVal(o.Type()))
 					sub.named = append(sub.named, o)
 				}
 			}
